@@ -1642,8 +1642,22 @@ class Executor:
         if r != z3.sat:
             return None
         m = self.solver.model()
+        keep = []
+        for ref in self.model_refiners:
+            try:
+                extra = ref(self, m, None)
+            except Exception:
+                extra = None
+            if extra:
+                self.solver.push()
+                for e in extra:
+                    self.solver.add(e)
+                if self.check() == z3.sat:
+                    m = self.solver.model()
+                    keep += list(extra)
+                self.solver.pop()
         try:
-            m = self.diversify(m)
+            m = self.diversify(m, keep)
         except z3.Z3Exception:
             pass
         return self.model_tape(m)
@@ -1706,6 +1720,7 @@ class Executor:
             m = self.solver.model()
             # model refiners (e.g. the algebraic model) try to find a counterexample that does not depend
             # on values the harness cannot control natively, so that the native replay can reproduce it
+            keep = []
             for ref in self.model_refiners:
                 extra = ref(self, m, z3.Not(c))
                 if extra:
@@ -1715,9 +1730,10 @@ class Executor:
                         self.solver.add(e)
                     if self.check() == z3.sat:
                         m = self.solver.model()
+                        keep += list(extra)
                     self.solver.pop()
             try:
-                m = self.diversify(m, [z3.Not(c)])
+                m = self.diversify(m, [z3.Not(c)] + keep)
             except z3.Z3Exception:
                 pass
             vals = self.model_tape(m)
